@@ -156,6 +156,11 @@ const POS_PROGRAM: &[(&str, &str, &str, &str)] = &[
     ("custom", "M::C", "", "custom C"),
     ("alias", "M::L", "", "typealias L = Sequence<int32>"),
     ("", "M::T", "", "struct T {}"),
+    ("", "", "", "enum E2 {"),
+    ("", "M::E2::W", "  ", "W("),
+    ("enfield", "M::E2::W::g", "      ", "g: int32"),
+    ("", "", "  ", ")"),
+    ("", "", "", "}"),
 ];
 
 fn render_positions(pos: &str, comment: &[String]) -> (String, String) {
